@@ -1023,6 +1023,23 @@ func vc6RealJobs(rng *vh.Rng, c vc6Consts, part string) [][]vc6Job {
 		}
 		passes[i%3] = append(passes[i%3], mk(h, []int{0, 3, 1}[i%3], "interleaved"))
 	}
+	// many full batches of SEVERAL addresses parked in the background writer at the same time (more than a
+	// dozen parked buffers, two or three of them per address): their records must still be chained in push order
+	{
+		nAddr, per := 7, 2*B+7
+		if vh.Thorough() {
+			nAddr, per = 20, 3*B+7
+		}
+		var h []vc6Push
+		id := 0
+		for round := 0; round < per; round++ {
+			for k := 1; k <= nAddr; k++ {
+				id++
+				h = append(h, vc6P(id, uint64(1+round/50), []int{k}))
+			}
+		}
+		passes[0] = append(passes[0], mk(h, 0, "many-parked-batches"))
+	}
 	// one transaction naming two addresses at once
 	{
 		var h []vc6Push
